@@ -2,8 +2,8 @@
 # usage: tools/refactormatrix.sh <dir with */NN.diff> [workers] — runs every check on every behaviour-preserving refactoring; any VIOLATION is a false alarm
 ROOT="$(realpath "${1:-/verif/refactors}")"; W="${2:-6}"
 export GOFLAGS=-mod=mod GOPROXY=off GOSUMDB=off GOTOOLCHAIN=local GOWORK=off
-DV=$(mktemp /tmp/dcpverif.XXXXXX); cp /verif/bin/dcpverif "$DV"; chmod +x "$DV"
-rm -rf /tmp/dcpverif-scratch/lock.* 2>/dev/null
+DV=$(mktemp /tmp/dcpverif.XXXXXX); cp "${DCPVERIF_BIN:-/verif/bin/dcpverif}" "$DV"; chmod +x "$DV"
+find /tmp/dcpverif-scratch -maxdepth 1 -name "lock.*" -mmin +15 -exec rm -rf {} + 2>/dev/null   # stale locks only: another matrix may be running
 trap 'rm -f "$DV"' EXIT
 one() {
   pf="$1"; ROOT="$2"; DV="$3"
